@@ -6,6 +6,10 @@ props = [json.loads(l) for l in open(os.path.join(V, "properties.jsonl"))]
 ids = [p["id"] for p in props]
 
 CLAIMS = {
+ "C19": dict(cat="other", tech="AST sentinel-discipline rule (fields whose none value is -1 never converted to bool), finite-domain enumeration of the conditions guarding learn-queue decrements, finite-domain evaluation of the setSlotSub clamp, OSC-format rule, metadata-key agreement with the range macros",
+    text="Narrow structural claim: the slot fields using -1 as `none` are discovered from the stores and must never be tested by truthiness; every decrement of a queue position / learn_queue_len must sit under conditions that, enumerated over positions {-1,1,2,3} per slot expression, cannot hold while the reference slot is -1 (the exact history class of the defect fixed here: clearing an idle slot while another waits); setSlotSub's clamp evaluated around the bounds is clamp(v,min,max), precedes the emit and only monotone functions follow; emit calls are type-correct; the metadata keys read are the ones rLinear/rLog/rLogWithLogmin emit. Does not decide linearity of the mapping or queue order over whole histories.",
+    note="Trusted: clang AST, sa/fdeval.py, witness/meta_matrix.cpp. The sentinel convention is read off the current tree (>= 6 stores of -1).",
+    ref="DESIGN.md 2 C19"),
  "C16": dict(cat="other", tech="finite-domain evaluation of the per-tag case bodies of the two hand-written comparison tables (extracted from the AST, libc memcmp/strcmp modelled) over value domains with ties/prefixes; truth-table comparison of the array guards; AST use-def check that list-level code reads arrays only through the range iterator",
     text="For every scalar tag and every pair/triple of values from a small domain chosen to contain ties, prefixes, zero-extended blobs, NULL strings and the 'immediately' time tag, the extracted case bodies satisfy: eq(l,r) == (cmp(l,r)==0), antisymmetry, the documented order, transitivity, and read only the union member of their tag; the array element-type guards of eq and cmp are the same truth table over all tag pairs; type mismatches are unequal and antisymmetric; eq/cmp/avmessage touch argument arrays only through rtosc_arg_val_itr_*, so range compression cannot be observed by them. The evaluation is exhaustive over the listed finite domains, not over all values; NaN and the iterator's internal arithmetic are not decided.",
     note="Trusted: clang AST, sa/fdeval.py, memcmp/strcmp models (sign of first difference), the domains in sa/props/C16.py.",
